@@ -326,7 +326,7 @@ func c13R2(c *Ctx) {
 	}
 	acquired := false
 	if exec != nil {
-		acquired = guardedBy(exec, true, func(cond ssa.Value) bool {
+		isSendChosen := func(cond ssa.Value) bool {
 			b, ok := cond.(*ssa.BinOp)
 			if !ok || b.Op != token.EQL {
 				return false
@@ -334,6 +334,14 @@ func c13R2(c *Ctx) {
 			ex, ok := b.X.(*ssa.Extract)
 			n, isC := constInt(b.Y)
 			return ok && ex.Tuple == ssa.Value(sel) && ex.Index == 0 && isC && int(n) == sendIdx
+		}
+		acquired = guardedBy(exec, true, func(cond ssa.Value) bool {
+			if isSendChosen(cond) {
+				return true
+			}
+			// `if !sem.acquire(ctx) { return }`: a helper whose result is true only when the send case was chosen
+			call, ok := cond.(*ssa.Call)
+			return ok && sel.Parent() != exec.Parent() && call.Common().StaticCallee() == sel.Parent() && boolResultImplies(call, isSendChosen)
 		}) != nil
 	}
 	c.verdict(acquired, rule, "acquire-before-run", c.instrPos(sel), "the sub-run starts only after the semaphore was acquired", "the sub-run can start without holding a semaphore slot: more than `parallelism` sub-workflows run at a time")
@@ -358,7 +366,7 @@ func c13R2(c *Ctx) {
 			return
 		}
 		for _, inner := range c.CG().Callees(d) {
-			eachInstr(inner, func(r2 instrRef) {
+			c.eachInstrLogical(inner, func(r2 instrRef) {
 				if isSemRecv(r2.I) {
 					released = true
 				}
@@ -418,7 +426,8 @@ func c13R3(c *Ctx) {
 	// the branch
 	var branch *ssa.If
 	nonEmptyIdx := 0
-	eachInstr(fn, func(r instrRef) {
+	// the assembly may live in a helper that processInput owns (one call site): it is analysed where it is
+	c.eachInstrLogical(fn, func(r instrRef) {
 		ifi, ok := r.I.(*ssa.If)
 		if !ok {
 			return
@@ -450,7 +459,8 @@ func c13R3(c *Ctx) {
 		blk  *ssa.BasicBlock
 	}
 	lits := map[ssa.Value]*lit{}
-	eachInstr(fn, func(r instrRef) {
+	host := branch.Parent()
+	eachInstr(host, func(r instrRef) {
 		mu, ok := r.I.(*ssa.MapUpdate)
 		if !ok {
 			return
@@ -478,12 +488,13 @@ func c13R3(c *Ctx) {
 					dm = mi.X
 				}
 				keyed := false
+				nilSkipped := false
 				if dm.Referrers() != nil {
 					for _, ref := range *dm.Referrers() {
 						if mu, ok := ref.(*ssa.MapUpdate); ok && mu.Map == dm {
 							// key is the loop index of a loop over outputs; value the element
 							if derivesFrom(mu.Value, isRes(0)) {
-								li := loopOver(fn, func(v ssa.Value) bool { return derivesFrom(v, isRes(0)) })
+								li := loopOver(host, func(v ssa.Value) bool { return derivesFrom(v, isRes(0)) })
 								if li != nil && li.Blocks[mu.Block()] {
 									// index loop: key is the phi of the header
 									if isLoopIndex(mu.Key, li) {
@@ -492,12 +503,19 @@ func c13R3(c *Ctx) {
 									if ex, ok := mu.Key.(*ssa.Extract); ok && li.Next != nil && ex.Tuple == ssa.Value(li.Next) {
 										keyed = true
 									}
+									// only the non-nil results: the store is on the `entry != nil` edge
+									if guardedBy(mu, true, func(cond ssa.Value) bool {
+										b, ok := cond.(*ssa.BinOp)
+										return ok && b.Op == token.NEQ && isNilConst(b.Y) && derivesFrom(b.X, isRes(0))
+									}) != nil {
+										nilSkipped = true
+									}
 								}
 							}
 						}
 					}
 				}
-				okErr = keyed
+				okErr = keyed && nilSkipped
 			}
 		}
 		if onFalse {
